@@ -3,9 +3,28 @@
    O is the oracle record (regex engine, transformation chains, version hash), c the configuration. *)
 From Coq Require Import String.
 From Coq Require Import List NArith ZArith Bool Arith.
-From VF Require Import Base.Sx TextFile.Model TextFile.Proofs C14.Entry C14.EntryProofs.
+From VF Require Import Base.Sx TextFile.Model TextFile.Proofs TextFile.Lines C14.Entry C14.EntryProofs.
 Import ListNotations.
 Open Scope N_scope.
+
+(* Line semantics of open(newline="") iteration plus the strip loop: the raw lines concatenate to the
+   content (nothing lost, nothing reordered); each raw line is a CR/LF-free body followed by one of
+   "", "\n", "\r", "\r\n"; stripping leaves exactly the body, so no parsed line contains CR or LF. *)
+Theorem C14_lines_partition : forall s, concat (raw_lines s []) = s.
+Proof. exact raw_lines_concat. Qed.
+Print Assumptions C14_lines_partition.
+
+Theorem C14_lines_shape : forall s,
+  Forall (fun l => exists b t, l = b ++ t /\ noeol b /\ term t /\ strip_eol l = b) (raw_lines s []).
+Proof.
+  intros s. eapply Forall_impl; [|apply raw_lines_ok].
+  intros l (b & t & -> & Hb & Ht). exists b, t. repeat split; auto. now apply strip_eol_body.
+Qed.
+Print Assumptions C14_lines_shape.
+
+Theorem C14_lines_noeol : forall s, Forall noeol (file_lines s).
+Proof. exact file_lines_noeol. Qed.
+Print Assumptions C14_lines_noeol.
 
 (* A successful parse gives every id the data and version of the FIRST line that yields this id
    (a line yields an id when it is not ignored, matches, and its system-id variable evaluates to the id);
@@ -81,3 +100,32 @@ Print Assumptions C14_version_tracks_line.
 Theorem C14_holds : forall c, valid c -> holds c (run_model c) = [].
 Proof. exact holds_model. Qed.
 Print Assumptions C14_holds.
+
+(* non-vacuity: a concrete oracle (lines "id=value", '#' comments ignored, identity hash), a history with a
+   duplicate line, a rewrite, a deletion; the hypotheses hold and the answers are the expected ones *)
+Definition ex_oracle : oracle :=
+  {| o_ignored := fun l => match l with 35 :: _ => true | _ => false end;
+     o_match := fun l => match l with [a; 61; b] => Some [Some [a]; Some [b]] | _ => None end;
+     o_xform := fun _ g => match g with Some s => Ok (VStr s) | None => Ok VNone end;
+     o_hash := fun l => l |}.
+Definition ex_cfg : cfg :=
+  {| cache := true; ffm := false; mis := AWarn; dup := AWarn; has_ign := true;
+     sid := {| vkey := []; tnone := false; unone := false |};
+     vars := [{| vkey := [110; 58; 118]; tnone := false; unone := false |}] |}.
+Definition ex_hist : list hstep :=
+  [SCall (CGet (VStr [97])); SEdit 2 (FText [98; 61; 50; 10]); SCall (CGet (VStr [97]));
+   SCall (CFind [110; 58; 118] (VStr [50])); SEdit 0 FMissing; SCall (CGet (VStr [98]))].
+Example C14_nonvacuous :
+  consistent (fun v => match v with 1 => FText [35; 120; 13; 10; 97; 61; 49; 13; 97; 61; 50]
+                                  | 2 => FText [98; 61; 50; 10] | _ => FMissing end)
+             (1, FText [35; 120; 13; 10; 97; 61; 49; 13; 97; 61; 50]) ex_hist
+  /\ (forall a b, o_hash ex_oracle a = o_hash ex_oracle b -> a = b)
+  /\ map fst (run ex_oracle ex_cfg (1, FText [35; 120; 13; 10; 97; 61; 49; 13; 97; 61; 50]) fresh ex_hist)
+     = [AGet [([110], Node [([118], Leaf (VStr [49]))])] (Some [97; 61; 49]);
+        AGet [] None; AFind (Some (VStr [98])); ARaise EFileNotFound].
+Proof.
+  split; [|split].
+  - split; [reflexivity|]. unfold ex_hist. repeat constructor.
+  - intros a b H. exact H.
+  - vm_compute. reflexivity.
+Qed.
